@@ -138,13 +138,11 @@ def takeIdx {α : Type} (l : List α) : List Nat → Except Err (List α)
 def dumpIndex (ends : List Int) (period : Int) (t : Int) : Int :=
   (searchsortedLeft ((ends.headD 0 - period) :: ends) t : Int) - 1
 
-/-- first half of `sensor_to_categorical`: dump index per event, shift of the last prior event to
-    dump 0, cut to the events before the end of the last dump, transform.  Returns the remaining
-    (values, dump indices). -/
-def s2cCut (ts : List Int) (vals : List V) (ends : List Int) (period : Int) (tr : Option (V → V)) :
+/-- first half of `sensor_to_categorical` after the dump index of every event is known
+    (`events0`): shift of the last prior event to dump 0, cut to the events before the end of the
+    last dump, transform.  Returns the remaining (values, dump indices). -/
+def s2cCutEv (events0 : List Int) (vals : List V) (numDumps : Nat) (tr : Option (V → V)) :
     List V × List Nat :=
-  let numDumps := ends.length
-  let events0 : List Int := ts.map (dumpIndex ends period)
   -- first_proper_event = events.searchsorted(-1, side='right'); shift final prior event to dump 0
   let fp0 := searchsortedRight events0 (-1)
   let fp := if fp0 > 0 then fp0 - 1 else fp0
@@ -157,16 +155,15 @@ def s2cCut (ts : List Int) (vals : List V) (ends : List Int) (period : Int) (tr 
     | none => vals1
   (vals2, events2)
 
-/-- second half of `sensor_to_categorical`: initial value, greedy clean-up, repeat removal -/
-def s2cFinish (numDumps : Nat) (vals2 : List V) (events2 : List Nat) (init : Option V)
-    (greedyVals : List V) (allowRepeats : Bool) : Except Err (Cat V) := do
-  -- if events[0] != 0 and initial_value is not None
-  let e0 ← match events2 with
-    | [] => throw Err.index
-    | e :: _ => pure e
-  let (vals3, events3) := match init with
-    | some iv => if e0 ≠ 0 then (iv :: vals2, 0 :: events2) else (vals2, events2)
-    | none => (vals2, events2)
+/-- `events = dump_endtimes.searchsorted(sensor_timestamps) - 1`, then `s2cCutEv` -/
+def s2cCut (ts : List Int) (vals : List V) (ends : List Int) (period : Int) (tr : Option (V → V)) :
+    List V × List Nat :=
+  s2cCutEv (ts.map (dumpIndex ends period)) vals ends.length tr
+
+/-- last part of `sensor_to_categorical`: force the first event to dump 0, greedy clean-up via
+    `_single_event_per_dump`, repeat removal, construction of the container -/
+def s2cClean (numDumps : Nat) (vals3 : List V) (events3 : List Nat) (greedyVals : List V)
+    (allowRepeats : Bool) : Except Err (Cat V) := do
   -- events[0] = 0
   let events4 := events3.set 0 0
   let greedy := vals3.map (fun v => greedyVals.contains v)
@@ -176,6 +173,19 @@ def s2cFinish (numDumps : Nat) (vals2 : List V) (events2 : List Nat) (init : Opt
   let pairs := List.zip vals6 events6
   let pairs := if allowRepeats then pairs else keepChanges none pairs
   pure (Cat.new (pairs.map (·.1)) (pairs.map (·.2) ++ [numDumps]))
+
+/-- second half of `sensor_to_categorical`: initial value, then `s2cClean` -/
+def s2cFinish (numDumps : Nat) (vals2 : List V) (events2 : List Nat) (init : Option V)
+    (greedyVals : List V) (allowRepeats : Bool) : Except Err (Cat V) :=
+  -- if events[0] != 0 and initial_value is not None   (IndexError on an empty array)
+  match events2 with
+  | [] => throw Err.index
+  | e0 :: _ =>
+    match init with
+    | some iv =>
+      if e0 ≠ 0 then s2cClean numDumps (iv :: vals2) (0 :: events2) greedyVals allowRepeats
+      else s2cClean numDumps vals2 events2 greedyVals allowRepeats
+    | none => s2cClean numDumps vals2 events2 greedyVals allowRepeats
 
 /-- **Mirror of `sensor_to_categorical`.**  `ends` = `dump_midtimes + 0.5 * dump_period`,
     `tr` = transform (`none` = no transform), `greedyVals` = `greedy_values`. -/
